@@ -5,6 +5,7 @@ import Marwood.Lemmas.PreludeInterpAss
 import Marwood.Lemmas.PreludeInterpMap
 import Marwood.Lemmas.PreludeLength
 import Marwood.Lemmas.TotalLength
+import Marwood.Lemmas.EqualAgree
 /-!
 # C14 — list and vector procedures match their specification and preserve identity
 
@@ -974,5 +975,32 @@ theorem map_without_list (g : Callee) (fuel : Nat) (s : Store) :
     map g fuel s [] = .err .arity ∧ forEach g fuel s [] = .err .arity := ⟨rfl, rfl⟩
 
 end PreludeImages
+
+/-! ### `equal?` after the repair dfd9e81 (`compare.rs`: a set of pairs of heap locations whose comparison has
+begun is threaded through `equal_seen` / `compare_pair` / `compare_vector`; `Store.Pinned.equal` … are the
+functions before it) -/
+
+/-- **`equal?` is unchanged wherever it used to return.** If the pinned `equal` returns on `l`, `r` with
+    some fuel `n` — it does on every acyclic structure: trees, lists, vectors, with or without sharing;
+    it is out of fuel for every `n` exactly when the comparison runs round a cycle for ever — then the
+    repaired one gives the same outcome (the same boolean, error class or panic site) with every fuel
+    `f ≥ n`. (`Lemmas/EqualAgree.lean`: a pair of locations in the set is either done with `true`, or in
+    progress further up and then the pinned function cannot return on it below.) -/
+theorem equal_agrees_pinned {s : Store} {n : Nat} {l r : VCell} (h : Pinned.equal n s l r ≠ .diverge)
+    {f : Nat} (hf : n ≤ f) : equal f s l r = Pinned.equal n s l r :=
+  Marwood.Store.equal_agrees h hf
+
+/-- the builtin: same answer as the pinned builtin's -/
+theorem equalB_agrees_pinned {s : Store} {n : Nat} {a b : VCell} {v : Bool}
+    (h : Pinned.equal n s b a = .ok v) {f : Nat} (hf : n ≤ f) :
+    equalB f s [a, b] = .ok (s, .bool v) := by
+  have := equal_agrees_pinned (s := s) (n := n) (l := b) (r := a) (by rw [h]; simp) hf
+  simp only [equalB, this, h, bind_ok]
+
+/-- the hypothesis is satisfiable: `(1 2)` against `(1 . 7)` and against itself in `exStore` -/
+example : equalB 10 exStore [.ptr 7, .ptr 4] = .ok (exStore, .bool false) :=
+  equalB_agrees_pinned (n := 4) rfl (by decide)
+example : equalB 10 exStore [.ptr 5, .ptr 5] = .ok (exStore, .bool true) :=
+  equalB_agrees_pinned (n := 1) rfl (by decide)
 
 end Marwood.Proofs.C14
